@@ -103,7 +103,10 @@ def worker_count_only_forwarded(ctx, rule):
             n_uses += 1
             par = parents.get(id(n))
             ok = False
-            if isinstance(par, ast.keyword) and par.arg in WORKER_PARAMS:
+            splat = _as_splatted_keyword(parents, n, f.node)
+            if splat is not None:
+                ok = splat in WORKER_PARAMS
+            elif isinstance(par, ast.keyword) and par.arg in WORKER_PARAMS:
                 ok = True
             elif isinstance(par, ast.keyword) or (
                     isinstance(par, ast.Call) and n in par.args):
@@ -610,6 +613,34 @@ def _enclosing_func(prog, mod, node):
     return encl
 
 
+def _as_splatted_keyword(parents, n, root):
+    """name of the keyword under which ``n`` reaches a call when it is a
+    value of a dictionary display that is only ever unpacked with ** into
+    calls ({"chunk_size": N, ...} -> f(**options)); else None"""
+    par = parents.get(id(n))
+    if not isinstance(par, ast.Dict):
+        return None
+    key = None
+    for k, v in zip(par.keys, par.values):
+        if v is n and isinstance(k, ast.Constant) and isinstance(
+                k.value, str):
+            key = k.value
+    if key is None:
+        return None
+    up = parents.get(id(par))
+    if isinstance(up, ast.keyword) and up.arg is None:
+        return key
+    if isinstance(up, ast.Assign) and len(up.targets) == 1 and isinstance(
+            up.targets[0], ast.Name):
+        name = up.targets[0].id
+        uses = [x for x in ast.walk(root) if isinstance(x, ast.Name)
+                and x.id == name and isinstance(x.ctx, ast.Load)]
+        if uses and all(isinstance(parents.get(id(u)), ast.keyword)
+                        and parents[id(u)].arg is None for u in uses):
+            return key
+    return None
+
+
 def _judge_chunk_use(prog, mod, parents, n, depth):
     """Is this occurrence of a chunk-size value used only to decide how rows
     are batched?  (ok, why not).  A local name bound to the value
@@ -617,7 +648,11 @@ def _judge_chunk_use(prog, mod, parents, n, depth):
     par = parents.get(id(n))
     ok = False
     why = f"used in {ast.unparse(par)[:80] if par else '?'}"
-    if isinstance(par, ast.keyword):
+    splat = _as_splatted_keyword(parents, n, mod.tree)
+    if splat is not None:
+        ok = splat in ("chunk_size", "batch_size", "reader_chunk_size") \
+            or "chunk" in splat or "batch" in splat
+    elif isinstance(par, ast.keyword):
         call = parents.get(id(par))
         ok = par.arg in ("chunk_size", "batch_size",
                          "reader_chunk_size") and isinstance(call, ast.Call)
